@@ -92,6 +92,15 @@ __all__ = [
 ]
 
 
+def _value_repr(value: Any, short: bool = False) -> str:
+    """repr() for error messages: a value whose repr() itself fails (e.g. an int beyond the interpreter's
+    int -> str conversion limit) must not replace the DataError being raised with a foreign exception"""
+    try:
+        return reprlib.repr(value) if short else repr(value)
+    except Exception:
+        return f"<{type(value).__name__}>"
+
+
 def _repr(buffer: _BufferType) -> str:
     if isinstance(buffer, BytesIO):
         return repr(buffer.getvalue())
@@ -155,7 +164,7 @@ class DataType(metaclass=_DataTypeMeta):
         try:
             return cls._encode(value)
         except Exception as err:
-            raise DataError(f"Error packing {value!r} as {cls.__name__}") from err
+            raise DataError(f"Error packing {_value_repr(value)} as {cls.__name__}") from err
 
     @classmethod
     def _encode(cls, value: Any) -> bytes:
@@ -379,7 +388,7 @@ class DATE_AND_TIME(ElementaryDataType):
         try:
             return UDINT.encode(time) + UINT.encode(date)
         except Exception as err:
-            raise DataError(f"Error packing {time!r} as {cls.__name__}") from err
+            raise DataError(f"Error packing {_value_repr(time)} as {cls.__name__}") from err
 
     @classmethod
     def _decode(cls, stream: BytesIO) -> Tuple[int, int]:
@@ -573,7 +582,7 @@ class STRINGN(StringDataType):
             )
         except Exception as err:
             raise DataError(
-                f"Error encoding {value!r} as STRINGN using char. size {char_size}"
+                f"Error encoding {_value_repr(value)} as STRINGN using char. size {char_size}"
             ) from err
 
     @classmethod
@@ -640,7 +649,7 @@ class EPATH(ElementaryDataType):
             return path
         except Exception as err:
             raise DataError(
-                f"Error packing {reprlib.repr(segments)} as {cls.__name__}"
+                f"Error packing {_value_repr(segments, short=True)} as {cls.__name__}"
             ) from err
 
     @classmethod
@@ -725,7 +734,7 @@ class STRINGI(StringDataType):
             return data
         except Exception as err:
             raise DataError(
-                f"Error packing {reprlib.repr(strings)} as {cls.__name__}"
+                f"Error packing {_value_repr(strings, short=True)} as {cls.__name__}"
             ) from err
 
     @classmethod
@@ -830,7 +839,7 @@ def Array(
                 return b"".join(cls.element_type.encode(values[i]) for i in range(_len))
             except Exception as err:
                 raise DataError(
-                    f"Error packing {reprlib.repr(values)} into {cls.element_type}[{_length}]"
+                    f"Error packing {_value_repr(values, short=True)} into {cls.element_type}[{_length}]"
                 ) from err
 
         @classmethod
@@ -956,7 +965,7 @@ class CIPSegment(DataType):
             return cls._encode(segment, padded)
         except Exception as err:
             raise DataError(
-                f"Error packing {reprlib.repr(segment)} as {cls.__name__}"
+                f"Error packing {_value_repr(segment, short=True)} as {cls.__name__}"
             ) from err
 
     @classmethod
